@@ -5,6 +5,7 @@ mod insn;
 mod interp;
 mod native;
 mod prog;
+mod two;
 mod table8;
 
 #[global_allocator]
@@ -86,6 +87,17 @@ fn main() {
             }
             interp::start_watchdog(20);
             if let Err(e) = prog::run(args[2].parse().unwrap_or(1), args[3].parse().unwrap_or(8), args[4].parse().unwrap_or(1), &args[5], &args[6]) {
+                eprintln!("axv: io error: {e}");
+                std::process::exit(2);
+            }
+        }
+        "two" => {
+            // axv two <n_programs> <len> <seed> <forms.json> <out.ndjson>
+            if args.len() < 7 {
+                usage();
+            }
+            interp::start_watchdog(20);
+            if let Err(e) = two::run(args[2].parse().unwrap_or(1), args[3].parse().unwrap_or(8), args[4].parse().unwrap_or(1), &args[5], &args[6]) {
                 eprintln!("axv: io error: {e}");
                 std::process::exit(2);
             }
